@@ -208,3 +208,117 @@ Proof.
   - destruct (d <=? 0) eqn:E; [apply Z.leb_le in E; lia|]. destruct (cw_step s (XTake k f d)) as [[s' r] ex]. reflexivity.
   - destruct (cw_step s XTick) as [[s' r] ex]. reflexivity.
 Qed.
+
+(* ------------------------------------------------------------------ *)
+(* the one-pass runner of Check.v (bulk operations, stopped Ranges) produces the visible,
+   canonical observations of the plain run over the expanded history: Check.prop_ok for a
+   SafeMap case compares with [map_run] of the theorem safemap_refines_map, Check.agrees
+   with [sm_run] *)
+Fixpoint grun {St} (step : St -> smop -> St * obs) (st : St) (ops : list smop) : list obs :=
+  match ops with
+  | [] => []
+  | o :: ops' => let (s', r) := step st o in r :: grun step s' ops'
+  end.
+
+Fixpoint gfinal {St} (step : St -> smop -> St * obs) (st : St) (ops : list smop) : St :=
+  match ops with
+  | [] => st
+  | o :: ops' => gfinal step (fst (step st o)) ops'
+  end.
+
+Lemma grun_sm : forall cfg ops m, grun (sm_step cfg) m ops = sm_run cfg m ops.
+Proof.
+  intros cfg ops. induction ops as [|o ops IH]; intros m; [reflexivity|].
+  cbn [grun sm_run]. destruct (sm_step cfg m o) as [m' r]. rewrite IH. reflexivity.
+Qed.
+
+Lemma grun_map : forall ops a, grun map_step a ops = map_run a ops.
+Proof.
+  intros ops. induction ops as [|o ops IH]; intros a; [reflexivity|].
+  cbn [grun map_run]. destruct (map_step a o) as [a' r]. rewrite IH. reflexivity.
+Qed.
+
+Lemma grun_app : forall (St : Type) (step : St -> smop -> St * obs) a b st,
+  grun step st (a ++ b) = grun step st a ++ grun step (gfinal step st a) b.
+Proof.
+  intros St step a. induction a as [|o a IH]; intros b st; [reflexivity|].
+  cbn [app grun gfinal]. destruct (step st o) as [s' r]. cbn [fst]. rewrite IH. reflexivity.
+Qed.
+
+Lemma gfinal_app : forall (St : Type) (step : St -> smop -> St * obs) a b st,
+  gfinal step st (a ++ b) = gfinal step (gfinal step st a) b.
+Proof.
+  intros St step a. induction a as [|o a IH]; intros b st; [reflexivity|]. cbn [app gfinal]. apply IH.
+Qed.
+
+Definition vis (l : list obs) : list obs := map canon_obs (filter nonunit l).
+
+Lemma vis_app : forall a b, vis (a ++ b) = vis a ++ vis b.
+Proof. intros a b. unfold vis. rewrite filter_app, map_app. reflexivity. Qed.
+
+Lemma fold_prims : forall (St : Type) (step : St -> smop -> St * obs) prims st acc,
+  fold_left (prim_acc step) prims (st, acc) =
+  (gfinal step st prims, rev (vis (grun step st prims)) ++ acc).
+Proof.
+  intros St step prims. induction prims as [|o prims IH]; intros st acc; [reflexivity|].
+  cbn [fold_left grun gfinal]. unfold prim_acc at 2. cbn [fst snd].
+  destruct (step st o) as [s' r]. cbn [fst]. rewrite IH. f_equal.
+  unfold vis. cbn [filter]. destruct (nonunit r); cbn [map rev]; [rewrite <- app_assoc|]; reflexivity.
+Qed.
+
+Lemma mrun_obs : forall (St : Type) (step : St -> smop -> St * obs) stop ops st acc ok,
+  fst (mrun step stop ops (st, acc) ok) = rev acc ++ vis (grun step st (expand ops)).
+Proof.
+  intros St step stop ops. induction ops as [|o ops IH]; intros st acc ok.
+  - cbn. rewrite app_nil_r. reflexivity.
+  - assert (Hgen : forall sa', fold_left (prim_acc step) (expand1 o) (st, acc) = sa' ->
+              fst (mrun step stop ops sa' ok) =
+              rev acc ++ vis (grun step st (expand1 o ++ expand ops))).
+    { intros sa' Hsa. rewrite fold_prims in Hsa. subst sa'. rewrite IH.
+      rewrite rev_app_distr, rev_involutive, grun_app, vis_app, app_assoc. reflexivity. }
+    destruct o as [p|k0 n v|k0 n|k v n|n vs].
+    1-4: cbn [mrun]; unfold expand; cbn [flat_map]; fold (expand ops); apply Hgen; reflexivity.
+    cbn [mrun]. unfold expand. cbn [flat_map expand1 app]. fold (expand ops). apply IH.
+Qed.
+
+Lemma list_eqb_obs_eq : forall l1 l2, list_eqb obs_eqb l1 l2 = true -> l1 = l2.
+Proof.
+  induction l1 as [|a l1 IH]; intros [|b l2] H; try discriminate; [reflexivity|].
+  cbn [list_eqb] in H. apply andb_true_iff in H. destruct H as [Hab H]. f_equal; [|apply IH; exact H].
+  destruct a, b; cbn [obs_eqb] in Hab; try discriminate; try reflexivity.
+  - apply Bool.eqb_prop in Hab. subst. reflexivity.
+  - apply Z.eqb_eq in Hab. subst. reflexivity.
+  - destruct o, o0; cbn in Hab; try discriminate; [apply Z.eqb_eq in Hab; subst|]; reflexivity.
+  - f_equal. revert l0 Hab. induction l as [|x l IHl]; intros [|y l0] Hab; try discriminate; [reflexivity|].
+    cbn in Hab. apply andb_true_iff in Hab. destruct Hab as [Hxy Hab]. apply Z.eqb_eq in Hxy. subst.
+    f_equal. apply IHl. exact Hab.
+  - f_equal. revert l0 Hab. induction l as [|x l IHl]; intros [|y l0] Hab; try discriminate; [reflexivity|].
+    cbn in Hab. apply andb_true_iff in Hab. destruct Hab as [Hxy Hab]. unfold pair_eqb in Hxy.
+    apply andb_true_iff in Hxy. destruct Hxy as [H1 H2]. apply Z.eqb_eq in H1. apply Z.eqb_eq in H2.
+    destruct x, y. cbn in *. subst. f_equal. apply IHl. exact Hab.
+  - apply andb_true_iff in Hab. destruct Hab as [H1 H2]. apply Bool.eqb_prop in H2. subst.
+    destruct r, r0; cbn in H1; try discriminate; [apply Z.eqb_eq in H1; subst|]; reflexivity.
+Qed.
+
+Lemma mcheck_true : forall (St : Type) (step : St -> smop -> St * obs) stop init ops seen,
+  mcheck step stop init ops seen = true ->
+  vis (grun step init (expand ops)) = visible true seen.
+Proof.
+  intros St step stop init ops seen H. unfold mcheck in H.
+  pose proof (mrun_obs St step stop ops init [] true) as Hm.
+  destruct (mrun step stop ops (init, []) true) as [model ok]. cbn [fst rev app] in Hm.
+  destruct ok; [|discriminate H]. subst model. apply list_eqb_obs_eq. exact H.
+Qed.
+
+(* a SafeMap case accepted by prop_ok shows exactly the visible observations of the plain map
+   on the expanded history; one accepted by agrees, those of the transcribed model *)
+Theorem safemap_check_runs_the_reference_proof : forall ct md ops seen,
+  (prop_ok (KSafeMap ct md ops seen) = true ->
+   visible true (map_run [] (expand ops)) = visible true seen) /\
+  (agrees (KSafeMap ct md ops seen) = true ->
+   visible true (sm_run (mkSMC ct md) sm_new (expand ops)) = visible true seen).
+Proof.
+  intros ct md ops seen. split; intros H; cbn [prop_ok agrees] in H; apply mcheck_true in H.
+  - rewrite grun_map in H. exact H.
+  - rewrite grun_sm in H. exact H.
+Qed.
